@@ -223,9 +223,16 @@ class Pipeline(object):
 
         _logger.debug('Exited workers loop.')
 
+        worker_error = None
+
         if self._worker_tasks:
             _logger.debug('Waiting for workers to stop.')
-            yield from asyncio.wait(self._worker_tasks)
+            done_tasks = (yield from asyncio.wait(self._worker_tasks))[0]
+
+            for task in done_tasks:
+                if not task.cancelled() and task.exception():
+                    # A task failed while the pipeline was stopping
+                    worker_error = worker_error or task.exception()
 
         _logger.debug('Waiting for producer to stop.')
 
@@ -245,6 +252,9 @@ class Pipeline(object):
             self._warn_discarded_items()
 
         self._state = PipelineState.stopped
+
+        if worker_error:
+            raise worker_error
 
     def stop(self):
         if self._state == PipelineState.running:
